@@ -91,9 +91,11 @@ func (Implementation) Dlarft(direct lapack.Direct, store lapack.StoreV, n, k int
 					t[j*ldt+i] = -tau[i] * v[i*ldv+j]
 				}
 				j := min(lastv, prevlastv)
-				bi.Dgemv(blas.Trans, j-i, i,
-					-tau[i], v[(i+1)*ldv:], ldv, v[(i+1)*ldv+i:], ldv,
-					1, t[i:], ldt)
+				if j > i {
+					bi.Dgemv(blas.Trans, j-i, i,
+						-tau[i], v[(i+1)*ldv:], ldv, v[(i+1)*ldv+i:], ldv,
+						1, t[i:], ldt)
+				}
 			} else {
 				for lastv = n - 1; lastv >= i+1; lastv-- {
 					if v[i*ldv+lastv] != 0 {
